@@ -52,6 +52,54 @@ def record_case(cid, T, mods, seed, shuffle=True, origin='tlc'):
                                            for o in objs]})
     ev('gap_degree', lambda: {'out': ta.gap_degree(root)})
 
+    def three():
+        import io as _io
+        gd = ta.gap_degree(root)
+        r2 = treeio.build(T, mods, atoms, None)
+        r2.data['sid'] = 1
+        try:
+            to.brackets(r2, _io.StringIO())
+            refuses = 'F'
+        except ValueError:
+            refuses = 'T'
+        g_, l_ = {}, {}
+        mods['grammar'].extract(treeio.build(T, mods, atoms, None), g_, l_)
+        return {'gd': gd, 'refuses': refuses, 'cf': 'T' if mods['grammaranalysis'].is_contextfree(g_) else 'F'}
+    ev('three_notions', three)
+    if all(len(o.children) <= 2 for o in objs):
+        ev('disco_order', lambda: {'left': [ix(t) for t in ta.disco_order(root, 'left')],
+                                   'rightd': [ix(t) for t in ta.disco_order(root, 'rightd')]})
+
+    def analysis():
+        import contextlib
+        import io as _io
+        import re
+        others = [treeio.random_tree(random.Random(seed + k), nmax=6, maxcons=4, tags=('T', 'U', 'V')) for k in range(seed % 3)]
+        roots = [root] + [treeio.build(t_, mods, atoms, None) for t_ in others]
+        graphs = [G] + [treeio.Dumper(atoms).dump(r_) for r_ in roots[1:]]
+        out = _io.StringIO()
+        with contextlib.redirect_stdout(out):
+            tasks = [ta.GapDegree(), ta.PosTags(), ta.SentenceCount()]
+            for t_ in tasks:
+                for r_ in roots:
+                    t_.run(r_)
+                t_.done()
+        txt = out.getvalue()
+        m = re.search(r'(\d+) trees, (\d+) nodes', txt)
+        pt, pn, sec = [], [], None
+        for ln in txt.split('\n'):
+            if ln.startswith('Per tree'):
+                sec = pt
+            elif ln.startswith('Per node'):
+                sec = pn
+            mm = re.match(r'Gap degree\s+(\d+):\s+(\d+) ', ln)
+            if mm and sec is not None:
+                sec.append([int(mm.group(1)), int(mm.group(2))])
+        return {'trees': graphs, 'ntrees': int(m.group(1)), 'nnodes': int(m.group(2)), 'pertree': pt, 'pernode': pn,
+                'ntags': int(re.search(r'(\d+) different tags', txt).group(1)),
+                'nsent': int(re.search(r'(\d+) sentences', txt).group(1))}
+    ev('analysis', analysis)
+
     def numbering():
         to.compute_export_numbering(root)
         return {'num': [o.data.get('num', -1) if isinstance(o.data.get('num', -1), int) else -1
